@@ -26,6 +26,7 @@ DECIDES = {
     "stop": ["stop"], "c1-stop": [{"cont": 1}, "stop"], "c0-stop": [{"cont": 0}, "stop"],
     "c3-c1-stop": [{"cont": 3}, {"cont": 1}, "stop"], "c1-c0-c3-stop": [{"cont": 1}, {"cont": 0}, {"cont": 3}, "stop"],
     "c1-c1": [{"cont": 1}, {"cont": 1}],  # table ends => stop on poll 3
+    "k0-k2-stop": [{"cont": 0, "ctor": True}, {"cont": 2, "ctor": True}, "stop"],   # decisions built with the constructor
 }
 
 
@@ -34,7 +35,7 @@ def programs(tier):
     out = []
     for iname, (init, fn) in INITS.items():
         for dname, decide in DECIDES.items():
-            if quick and iname not in ("int0", "tuple", "dict", "dict-inplace", "list-inplace", "sentinel-none") and dname not in ("c1-stop", "c3-c1-stop"):
+            if quick and iname not in ("int0", "tuple", "dict", "dict-inplace", "list-inplace", "sentinel-none") and dname not in ("c1-stop", "c3-c1-stop", "k0-k2-stop"):
                 continue
             op = {"k": "wfc", "init": init, "check": {"fn": fn}, "decide": decide}
             meta = {"init": iname, "decide": dname, "path": [1], "npolls": len([x for x in decide if x != "stop"]) + 1,
